@@ -57,6 +57,9 @@ const unknownCode = 2147480000
 func codeExpr(s, lang string) string {
 	if isLitSym(s) {
 		c := s[1 : len(s)-1]
+		if rs := []rune(c); len(rs) == 1 && (rs[0] < 32 || rs[0] > 126) {
+			return fmt.Sprint(int(rs[0])) // not printable: give the code itself
+		}
 		if lang == "go" {
 			if c == "'" {
 				return `'\''`
